@@ -170,6 +170,86 @@ def c13(m, o):
                 checks += 1
                 if got2 != exp:
                     viol.append("is_match(%r, %r, %r) selects flows %s, expected %s" % (name, sf, df, got2, exp))
+    # filter values given as collections and predicates (where the API accepts them: the compartment query, and
+    # through it the strata filters of the flows added to a stratified model): per key, the compartment carries the
+    # stratification and its stratum is in the collection / satisfies the predicate; the keys are combined with AND
+    import random
+    rng = random.Random(o.get("seed", 0) + len(m.compartments))
+    strata_of = {}
+    for c in m.compartments:
+        for k, v in c.strata.items():
+            strata_of.setdefault(k, [])
+            if v not in strata_of[k]:
+                strata_of[k].append(v)
+
+    def rich_filter():
+        ks = rng.sample(sorted(strata_of), rng.randint(1, min(3, len(strata_of))))
+        f, show = {}, {}
+        for k in ks:
+            vs = rng.sample(strata_of[k], rng.randint(1, len(strata_of[k])))
+            kind = rng.choice(["str", "list", "list", "tuple", "set", "pred"])
+            if kind == "str":
+                f[k], show[k] = vs[0], vs[0]
+                vs = vs[:1]
+            elif kind == "list":
+                f[k], show[k] = list(vs), list(vs)
+            elif kind == "tuple":
+                f[k], show[k] = tuple(vs), tuple(vs)
+            elif kind == "set":
+                f[k], show[k] = set(vs), sorted(vs)
+            else:
+                f[k], show[k] = (lambda x, _vs=tuple(vs): x in _vs), "predicate: in %s" % (sorted(vs),)
+            f[k + "#vs"] = set(vs)
+        return f, show
+
+    def brute(name, f):
+        keys = [k for k in f if not k.endswith("#vs")]
+        return [c for c in m.compartments if (name is None or c.name == name)
+                and all(k in c.strata and c.strata[k] in f[k + "#vs"] for k in keys)]
+    if strata_of:
+        for _ in range(o.get("rich", 6)):
+            f, show = rich_filter()
+            q = {k: v for k, v in f.items() if not k.endswith("#vs")}
+            name = rng.choice([None] + sorted({c.name for c in m.compartments}))
+            exp = [str(c) for c in brute(name, f)]
+            try:
+                got = [str(c) for c in m.query_compartments(({"name": name} if name else {}) | q)]
+            except Exception as e:  # noqa
+                got = "raised %r" % (e,)
+            checks += 1
+            if got != exp:
+                viol.append("query_compartments(name=%r, %r) = %s, expected %s" % (name, show, got, exp))
+        if o.get("program") is not None:
+            # a transition flow added to the stratified model with such filters on both ends
+            import impl
+            names_ = sorted({c.name for c in m.compartments})
+            for _ in range(o.get("rich_flows", 2)):
+                if len(names_) < 2:
+                    break
+                a_, b_ = rng.sample(names_, 2)
+                f, show = rich_filter()
+                q = {k: v for k, v in f.items() if not k.endswith("#vs")}
+                srcs, dsts = brute(a_, f), brute(b_, f)
+                m2, e2, _ = impl.build(dict(o["program"], obs=[]))
+                if m2 is None or e2 is not None:
+                    break
+                before = len(m2.flows)
+                try:
+                    m2.add_transition_flow("richflow", 0.125, a_, b_, source_strata=dict(q), dest_strata=dict(q))
+                    got = [(str(f_.source), str(f_.dest)) for f_ in m2.flows[before:]]
+                except Exception as e:  # noqa
+                    got = "raised %s" % type(e).__name__
+                if len(srcs) == len(dsts) and len(srcs) > 0:
+                    exp = [(str(x), str(y)) for x, y in zip(srcs, dsts)]
+                elif len(srcs) == 1 or len(dsts) == 1:
+                    exp = None if not (srcs and dsts) else [(str(x), str(y)) for x in srcs for y in dsts]
+                else:
+                    exp = None        # (unequal numbers of matches: refused by the library; not compared)
+                if exp is not None and not isinstance(got, str):
+                    checks += 1
+                    if sorted(got) != sorted(exp):
+                        viol.append("add_transition_flow(%s -> %s, source_strata = dest_strata = %r) creates %s, expected %s"
+                                    % (a_, b_, show, got[:6], exp[:6]))
     return {"checks": checks, "violations": viol}
 
 
@@ -1053,6 +1133,27 @@ def c09(m, o):
             same(ref, outs(m5), "second run of one object, supplying values the first run took from the defaults")
         except BaseException as e:  # noqa
             viol.append("runs over default parameters raise %r" % (e,))
+        # one runner called several times: a call that omits what an earlier call supplied takes the defaults again
+        for via_model in (False, True):
+            m6, _, _ = impl.build(dict(prog, obs=[]))
+            m6.set_default_parameters({k: p[k] for k in used})
+            try:
+                if via_model:
+                    m6.run({}, solver=solver, jit=False)
+                    m6.run({k: wrong[k] for k in half}, solver=solver, jit=False)
+                    m6.run({}, solver=solver, jit=False)
+                else:
+                    r6 = m6.get_runner({}, jit=False, solver=solver)
+                    r6.run({})
+                    r6.run({k: wrong[k] for k in half})
+                    r6.run({})
+                checks += 1
+                same(ref, outs(m6), "%s called with {}, then with other values for %s, then with {} again: the defaults count again"
+                     % ("model.run" if via_model else "one runner", half))
+            except BaseException as e:  # noqa
+                if type(e).__name__ == "ObservationTimeLimit":
+                    raise
+                viol.append("repeated calls of one runner over default parameters raise %r" % (e,))
         m4, _, _ = impl.build(dict(prog, obs=[]))
         m4.set_default_parameters({k: p[k] for k in used})
         r4 = m4.get_runner({}, dyn_params=half, jit=False, solver=solver)
@@ -1665,13 +1766,15 @@ def c15(m, o):
             return
         pos = {k: i for i, k in enumerate(ids)}
         perm = [pos[k] for k in ids0]
-        if out.shape != out0.shape or np.abs(out[:, perm] - factor * out0).max() > tol * scale0 * max(1.0, factor):
+        # (for a scale factor below one the tolerance shrinks with it: the scaled results are compared on their own scale)
+        fac_ = factor if factor < 1.0 else max(1.0, factor)
+        if out.shape != out0.shape or np.abs(out[:, perm] - factor * out0).max() > tol * scale0 * fac_:
             viol.append("%s: outputs differ by %.6g (matched by compartment identity)" % (
                 what, np.abs(out[:, perm] - factor * out0).max() if out.shape == out0.shape else -1))
         if derived:
             for k, v in d0.items():
                 kk = dkey(k)
-                if kk not in d or np.abs(d[kk] - factor * v).max() > tol * (1 + np.abs(v).max()) * max(1.0, factor):
+                if kk not in d or np.abs(d[kk] - factor * v).max() > tol * (1 + np.abs(v).max()) * fac_:
                     viol.append("%s: derived output %s differs" % (what, k))
 
     for name, prog2 in o["variants"]:
